@@ -6,7 +6,7 @@ namespace CG
 namespace Miter
 open Circuit
 
-def satTy (ep : List Name) : String := if ep.length > 1 then "or" else "buf"
+def satTy (ep : List Name) : String := if ep.isEmpty then "0" else if ep.length > 1 then "or" else "buf"
 
 def tieArgs (n : Name) : AddArgs := { n := n, ty := "input", fanout := ["c0_" ++ n, "c1_" ++ n] }
 def satArgs (ep : List Name) : AddArgs := { n := "sat", ty := satTy ep, output := true }
@@ -16,8 +16,7 @@ def m0 (c0 c1 : Circuit) : Circuit := { name := "miter_" ++ c0.name ++ "_" ++ c1
 
 theorem miter_eq (c0 c1 : Circuit) (sp ep : List Name) (ord : Ord)
     (hb0 : c0.bbs = []) (hb1 : c1.bbs = []) (hne : c1.nodes ≠ [])
-    (ht0 : ∀ p ∈ c0.nodes, p.2.ty.isNone = false) (ht1 : ∀ p ∈ c1.nodes, p.2.ty.isNone = false)
-    (hsp : sp ≠ []) (hep : ep ≠ []) :
+    (ht0 : ∀ p ∈ c0.nodes, p.2.ty.isNone = false) (ht1 : ∀ p ∈ c1.nodes, p.2.ty.isNone = false) :
     Tx.miter c0 (some c1) (some sp) (some ep) ord =
       (liftO ((m0 c0 c1).addSubcircuit c0 "c0" []) >>= fun m1 =>
        liftO (m1.addSubcircuit c1 "c1" []) >>= fun m2 =>
@@ -28,20 +27,12 @@ theorem miter_eq (c0 c1 : Circuit) (sp ep : List Name) (ord : Ord)
     cases h : c1.nodes with
     | nil => exact absurd h hne
     | cons a l => rfl
-  have h2 : sp.isEmpty = false := by
-    cases h : sp with
-    | nil => exact absurd h hsp
-    | cons a l => rfl
-  have h3 : ep.isEmpty = false := by
-    cases h : ep with
-    | nil => exact absurd h hep
-    | cons a l => rfl
   have a0 : c0.nodes.any (fun p => p.2.ty.isNone) = false := by
     rw [List.any_eq_false]; intro p hp; rw [ht0 p hp]; simp
   have a1 : c1.nodes.any (fun p => p.2.ty.isNone) = false := by
     rw [List.any_eq_false]; intro p hp; rw [ht1 p hp]; simp
   unfold Tx.miter
-  simp only [hb0, hb1, h1, h2, h3, a0, a1, List.isEmpty_nil, Bool.not_true, Bool.false_eq_true, if_false,
+  simp only [hb0, hb1, h1, a0, a1, List.isEmpty_nil, Bool.not_true, Bool.false_eq_true, if_false,
     Bool.and_false, Bool.or_false, Bool.not_false, Bool.and_true]
   rfl
 
@@ -136,11 +127,10 @@ theorem mview_of_steps {c0 c1 m1 m2 m3 m4 m : Circuit} {sp ep : List Name} (h0 :
 theorem miter_steps {c0 c1 m : Circuit} {sp ep : List Name} {ord : Ord}
     (hb0 : c0.bbs = []) (hb1 : c1.bbs = []) (hne : c1.nodes ≠ [])
     (ht0 : ∀ p ∈ c0.nodes, p.2.ty.isNone = false) (ht1 : ∀ p ∈ c1.nodes, p.2.ty.isNone = false)
-    (hsp : sp ≠ []) (hep : ep ≠ [])
     (h : Tx.miter c0 (some c1) (some sp) (some ep) ord = .ok m) :
     ∃ m1 m2 m3 m4, (m0 c0 c1).addSubcircuit c0 "c0" [] = (m1, .ok) ∧ m1.addSubcircuit c1 "c1" [] = (m2, .ok) ∧
       Tx.miterTie m2 sp = .ok m3 ∧ Tx.addC m3 (satArgs ep) = .ok m4 ∧ Tx.miterCompare m4 ep = .ok m := by
-  rw [miter_eq c0 c1 sp ep ord hb0 hb1 hne ht0 ht1 hsp hep] at h
+  rw [miter_eq c0 c1 sp ep ord hb0 hb1 hne ht0 ht1] at h
   obtain ⟨m1, a1, h⟩ := bind_ok h
   obtain ⟨m2, a2, h⟩ := bind_ok h
   obtain ⟨m3, a3, h⟩ := bind_ok h
@@ -154,10 +144,9 @@ theorem typed_isNone {c : Circuit} (h : LintClean c) : ∀ p ∈ c.nodes, p.2.ty
 
 theorem mview_of_ok {c0 c1 m : Circuit} {sp ep : List Name} {ord : Ord}
     (h0 : LintClean c0) (h1 : LintClean c1) (hb0 : c0.bbs = []) (hb1 : c1.bbs = []) (hne : c1.nodes ≠ [])
-    (hsp : sp ≠ []) (hep : ep ≠ [])
     (h : Tx.miter c0 (some c1) (some sp) (some ep) ord = .ok m) : MView c0 c1 sp ep m := by
   obtain ⟨m1, m2, m3, m4, s1, s2, s3, s4, s5⟩ :=
-    miter_steps hb0 hb1 hne (typed_isNone h0) (typed_isNone h1) hsp hep h
+    miter_steps hb0 hb1 hne (typed_isNone h0) (typed_isNone h1) h
   exact mview_of_steps h0.toWF h1.toWF hb0 hb1 s1 s2 s3 s4 s5
 
 end Miter
